@@ -245,7 +245,7 @@ def strip(n, casts=False):
                 return n
             n = n['c'][0]
         elif casts and k in ('CStyleCastExpr', 'CXXStaticCastExpr', 'CXXFunctionalCastExpr',
-                             'CXXReinterpretCastExpr', 'CXXConstCastExpr') and n.get('c'):
+                             'CXXReinterpretCastExpr', 'CXXConstCastExpr', 'CXXDynamicCastExpr') and n.get('c'):
             n = n['c'][0]
         elif k == 'CXXConstructExpr' and (n.get('copy') or n.get('move')) and len(kids(n)) == 1:
             n = n['c'][0]
